@@ -101,13 +101,26 @@ CHECKS = {
              "A-JSONTEXT, A-LEX assumed.",
         technique="Lean 4 per-value round-trip proofs + writer/reader/end-to-end differential correspondence",
         design="§4.C01"),
+    "C02": dict(
+        text="Lean: encodeXml/decodeXml transcribe provxml.py (after six fix: commits) on XML infoset trees, including the xsi:type "
+             "decision web as one function encodeXmlAttr. Per-value theorems for both force_types values: the child element written for "
+             "(attribute, value) is read back by _extract_attributes as a value that add_attributes stores as the original (c02_int, "
+             "c02_bool, c02_uri, c02_float, c02_str incl. strings starting with 'prov:', c02_ref for prov:ref, c02_lang for xml:lang), "
+             "under explicit readability hypotheses on the element's namespace map (StdMap). Tied to /repo by three channels per "
+             "document and force_types value: writer infoset, reader on the same infoset, strict end-to-end comparison.",
+        note=A_COMMON + " A-XMLTEXT (lxml round-trips the infoset) and A-LEX assumed; lexical facts such as 'a decimal numeral does not "
+             "start with prov:' are hypotheses of the theorems. Which of several PROV subtype values names the element follows Python's "
+             "set order: compared modulo that choice. Known finding C02-1 = C03-1/C01-1 (bundle re-binds a prefix).",
+        technique="Lean 4 case-analysis proofs on the xsi:type decision + writer/reader/end-to-end differential correspondence",
+        design="§4.C02"),
     "C10": dict(
         text="An independent PROV-JSON reader written in Lean from the specification (Prov/JsonSpec.lean; own tables, own name resolution) "
              "is executed on the text the library really emits (all json option sets) and must recover the source's strict content. "
              "Lean obligations T6: the transcribed spec tables equal the code's regenerated tables (t6_json_kind_keys, _ref_keys, "
              "_time_keys, _literal_types, _attribute_ids); the spec reader inverts the writer on name-free values (c10_json_value_*).",
-        note=A_COMMON + " The PROV-XML half of C10 is served by the C02 check's spec channel once built; until then only PROV-JSON is claimed "
-             "here. The spec reader is a hand transcription (trusted reading of the submission). Known finding C10-1 = C01-1.",
+        note=A_COMMON + " PROV-XML: Prov/XmlSpec.lean (element table, subtype elements, prov:id/prov:ref, xsi:type/xml:lang, schema child "
+             "order check) run on the real XML for both force_types; obligations t6_xml_elements, _subtypes, _formal_order, _model_subtypes. "
+             "The spec readers are hand transcriptions (trusted reading). Known finding C10-1 = C01-1.",
         technique="Lean 4 specification reader run on real output + table-equality obligations by kernel evaluation",
         design="§4.C10"),
     "C11": dict(
@@ -117,7 +130,9 @@ CHECKS = {
              "the text states (nothing dropped/invented) and be stable under write+load. Lean: scalar spellings agree between library "
              "reader and spec reader (c11_scalar_*), decoder failures are classified (c11_value_errors_classified); stability = C01 applied "
              "to the loaded document.",
-        note=A_COMMON + " PROV-XML foreign texts and the JSON->XML cross-format leg are covered by the C02 machinery. Attributes that the text "
+        note=A_COMMON + " PROV-XML half: lxml-built foreign texts (typed values in every spelling, subtype elements, xsi:type on elements, "
+             "bundle-level xmlns and default namespace) + mutations of the 45 corpus files, judged the same way; JSON->document->XML->document "
+             "cross-format leg on XML-expressible documents. Attributes that the text "
              "gives several numeric values equal in value but different in kind (1/true/1.0) are compared by value (Python set semantics, "
              "excluded by the property).",
         technique="Lean 4 spec reader + model reader vs library on foreign texts; case-analysis proofs on the value decoder",
